@@ -630,6 +630,21 @@ func (m c04) requestCase(rc reqCodec, r *core.Rand, i int) {
 				c.Class("decode_again_after_caller_edit_ok")
 			}
 		}
+		// (5) the object held a value, then REJECTED some bytes (truncated / garbage), then decodes enc: the value is enc's
+		for _, junk := range [][]byte{prev[:len(prev)/2], r.Bytes(7), {}, append(clone(prev), 1, 2, 3)} {
+			o, canon := rc.mk()
+			o.Unmarshal(clone(prev))
+			o.Marshal()
+			if o.Unmarshal(clone(junk)) {
+				continue // not rejected: nothing to check here
+			}
+			if !o.Unmarshal(clone(enc)) || !bytes.Equal(canon(), enc) || !bytes.Equal(o.Marshal(), enc) {
+				m.bad(rc.name+":reuse:after-rejected-bytes", "an object that rejected some bytes does not decode the next well-formed message to its value",
+					map[string]any{"codec": rc.name, "previous": core.Hex(prev), "rejected": core.Hex(junk), "decoded": core.Hex(enc)})
+				break
+			}
+			c.Class("reuse_after_rejected_bytes_checked")
+		}
 		// a rejected Unmarshal followed by Marshal is not constrained by the property; not judged.
 	})
 	if pan {
